@@ -134,7 +134,7 @@ def handle (args : List String) (impl : String) : R Ans :=
              verdict := ← vK c impl (if right then KSpec.extendRight (toSeq c s) v else KSpec.extendLeft (toSeq c s) v) }
     | "iter", [x] => do
       let s ← st x
-      let txt := String.join ((toSeq c s).map toString)
+      let txt := String.join ((toSeq c s).map toString) ++ " it=" ++ adaptorsTxt ((toSeq c s).map toString)
       pure { model := txt, verdict := vEq impl txt }
     | "setimm", [x, pos, v] => do
       -- `MerImmut::set`: the copy is changed, the original is not
